@@ -204,34 +204,39 @@ section
 open ContentStmts
 
 /-- the loop started with `pending` operands in the buffer: statements from `segment pending` -/
-theorem parseLoop_segment (allow : Bool) : ∀ (toks : List (Tok R)) (st : PState R) (pending : List (Prim R)),
+theorem parseLoop_segment (allow : Bool) (toks : List (Tok R)) : ∀ (st : PState R) (pending : List (Prim R)),
     parseLoop ro allow ⟨st, pending⟩ toks =
       match runStmts ro allow st (segment pending toks).1 with
       | .ok st' => .ok ⟨st', (segment pending toks).2⟩
       | .err => .err
       | .panic => .panic
-      | .oof => .oof
-  | [], st, pending => by simp [parseLoop, segment, runStmts]
-  | .prim p :: ts, st, pending => by
-    simp only [parseLoop, step, segment]
-    exact parseLoop_segment allow ts st (pending ++ [p])
-  | .kw s :: ts, st, pending => by
-    simp only [parseLoop, step, segment, runStmts]
-    by_cases h : ((add ro st s pending).ok || allow) = true
-    · simp only [h, if_true]
-      exact parseLoop_segment allow ts (add ro st s pending).st []
-    · simp [h]
-  | .bi (some id) :: ts, st, pending => by
-    simp only [parseLoop, step, segment, runStmts]
-    exact parseLoop_segment allow ts (st.push [.inlineImage id]) []
-  | .bi none :: ts, st, pending => by
-    simp only [parseLoop, step, segment, runStmts]
-    by_cases h : allow = true
-    · simp only [h, if_true]
-      exact parseLoop_segment true ts st []
-    · simp [h]
-  | .garbage :: ts, st, pending => by
-    simp [parseLoop, step, segment, runStmts]
+      | .oof => .oof := by
+  induction toks with
+  | nil => intro st pending; simp [parseLoop, segment, runStmts]
+  | cons t ts ih =>
+    intro st pending
+    cases t with
+    | prim p =>
+      simp only [parseLoop, step, segment]
+      exact ih st (pending ++ [p])
+    | kw s =>
+      simp only [parseLoop, step, segment, runStmts]
+      by_cases h : ((add ro st s pending).ok || allow) = true
+      · simp only [h, if_true]
+        exact ih (add ro st s pending).st []
+      · simp [h]
+    | bi img =>
+      cases img with
+      | some id =>
+        simp only [parseLoop, step, segment, runStmts]
+        exact ih (st.push [.inlineImage id]) []
+      | none =>
+        cases allow with
+        | true =>
+          simp only [parseLoop, step, segment, runStmts, if_true]
+          exact ih st []
+        | false => simp [parseLoop, step, segment, runStmts]
+    | garbage => simp [parseLoop, step, segment, runStmts]
 
 /-- **Operands never leak (clause 3), over token sequences.**  `parse_ops` on any token sequence — well-formed or
     not, strict or tolerant — is the statement-by-statement interpretation of `Spec/ContentStatements`: the
@@ -499,7 +504,7 @@ example : (∀ o ∈ demoF32Ops, finiteOp F32.ops o = true) ∧ (∀ o ∈ demoF
     (∀ o ∈ demoF32Ops, acceptedOp F32.ops ⟨false⟩ o = true) := by
   decide +kernel
 
-/-- so the theorem applies: the `f32` instance round-trips a sequence with fractional reals -/
+/-- so `parse_serialize_ops_f32` applies: the `f32` instance round-trips a sequence with fractional reals -/
 example (allow : Bool) : ∃ toks ops', serializeOps F32.ops ⟨true⟩ demoF32Ops = .ok toks ∧
     parseOps F32.ops allow toks = .ok ops' ∧ opsEquiv F32.ops ops' demoF32Ops = true :=
   parse_serialize_ops_f32 ⟨true⟩ allow demoF32Ops (by decide +kernel) (by decide +kernel)
